@@ -12,7 +12,7 @@ import errno as _errno
 
 VERIF = os.path.dirname(os.path.dirname(os.path.abspath(__file__)))
 REPO = os.environ.get("VERIF_REPO", "/repo")
-CACHE = os.path.join(VERIF, ".cache")
+CACHE = os.environ.get("VERIF_CACHE", os.path.join(VERIF, ".cache"))
 
 M64 = (1 << 64) - 1
 
